@@ -20,13 +20,15 @@ HARNESS = {
 
 def _c17_jobs(tier):
     q = tier == "quick"
-    dl = 50 if q else 800
+    # per-job deadlines: quick = one wave of 16 jobs (<= 60 s); thorough = 4 jobs per worker, 300+300+120+120 s = 14 min worst case
+    # (measured on idle cores: t2 120 s, t3 115 s, t1 43 s, t4 45 s per job); a job that runs out of time prints INCOMPLETE
+    dls = {"t1": 120, "t2": 300, "t3": 300, "t4": 120}
     # (mode, number of shards): quick = 16 jobs in one wave, thorough = 64 jobs
     plan = [("t4", 8), ("t2", 3), ("t3", 4), ("t1", 1)] if q else [("t2", 16), ("t3", 16), ("t4", 16), ("t1", 16)]
     jobs = []
     for mode, n in plan:
         for i in range(n):
-            jobs.append(("c17_h26x", ["--mode", mode, "--tier", tier, "--shard", "%d/%d" % (i, n), "--deadline", dl]))
+            jobs.append(("c17_h26x", ["--mode", mode, "--tier", tier, "--shard", "%d/%d" % (i, n), "--deadline", 50 if q else dls[mode]]))
     return jobs
 
 
